@@ -611,62 +611,14 @@ void body(V::Ctx &ctx)
     const bool quick = ctx.quick();
     const char *only = getenv("C24_ONLY"); // development aid: run one family
 
-    // ---- (a) valid encodings of short bodies
+    // Order: the cheap families that reach malformed framing first (edits, token strings), the large
+    // family of valid encodings last, so that a deadline cuts only the tail of the latter.
     const int N = quick ? 4 : 6;
     const std::vector<Cfg> wholeAll = {{65, D_EAGER}, {0, D_EAGER}, {2, D_EAGER}, {3, D_EAGER}, {5, D_EAGER}, {2, D_LAZY}, {3, D_LAZY}, {5, D_LAZY}, {65, D_LAZY},
                                        {3, D_ONE}, {5, D_ONE}, {65, D_ONE}};
     const std::vector<Cfg> splitQuick = {{65, D_EAGER}, {2, D_EAGER}, {3, D_LAZY}, {5, D_ONE}};
     const std::vector<Cfg> splitBig = {{65, D_EAGER}, {0, D_LAZY}}; // long chunks: no 1-byte-per-call configurations at every split
     const std::vector<Cfg> &splitValid = quick ? splitQuick : wholeAll;
-    for (int n = 0; n <= N && (!only || !strcmp(only, "a")); ++n)
-        for (int f = 0; f < (n ? 2 : 1); ++f) {
-            const std::string bodyBytes = fillerBody(f, n);
-            for (unsigned comp = 0; comp < (n ? 1u << (n - 1) : 1u); ++comp) {
-                std::vector<size_t> sizes;
-                if (n) {
-                    size_t run = 1;
-                    for (int i = 1; i < n; ++i) {
-                        if (comp & (1u << (i - 1))) { sizes.push_back(run); run = 1; }
-                        else ++run;
-                    }
-                    sizes.push_back(run);
-                }
-                const int positions = (int)sizes.size() + 1;
-                for (int si = 0; si < 3; ++si)
-                    for (int ei = 0; ei < NExts; ++ei)
-                        for (int where = -1; where < positions; ++where) {
-                            if (si == 0 && ei == 0 && where >= 0) continue; // undecorated: once
-                            if (positions == 1 && where >= 0) continue;     // same as "every position"
-                            // trailers vary with uniformly decorated chunks; single-position decorations use no trailer
-                            for (int ti = 0; ti < (where < 0 ? NTrailers : 1); ++ti) {
-                                const Encoded e = encode(bodyBytes, sizes, si, ei, where, ti);
-                                char d[128];
-                                snprintf(d, sizeof d, "v:n=%d,filler=%d,comp=%u,spell=%d,ext=%d,where=%d,trailer=%d", n, f, comp, si, ei, where, ti);
-                                validCase(d, e, wholeAll, splitValid, e.bytes.size() <= (quick ? 11u : 13u));
-                            }
-                        }
-            }
-        }
-
-    // ---- (a2) sizes that need hex letters / several digits, one or two chunks
-    if (!only || !strcmp(only, "a2")) {
-        const size_t big[] = {10, 11, 15, 16, 17, 26, 31, 32, 171, 255, 256, 257};
-        const int exts[] = {0, 2};
-        for (size_t sz : big)
-            for (int two = 0; two < 2; ++two)
-                for (int si = 0; si < 5; ++si)
-                    for (int ei : exts) {
-                        if (quick && sz > 32 && (si == 1 || ei)) continue;
-                        std::vector<size_t> sizes = {sz};
-                        if (two) sizes.push_back(11);
-                        const std::string bodyBytes = fillerBody(two, sz + (two ? 11 : 0));
-                        const Encoded e = encode(bodyBytes, sizes, si, ei, -1, 0);
-                        char d[128];
-                        snprintf(d, sizeof d, "h:size=%zu,chunks=%d,spell=%d,ext=%d", sz, two + 1, si, ei);
-                        validCase(d, e, wholeAll, splitBig, false);
-                    }
-    }
-
     // ---- (b) token strings over a hostile alphabet
     const std::vector<Cfg> tokWhole = {{65, D_EAGER}, {2, D_EAGER}, {3, D_LAZY}};
     const std::vector<Cfg> tokSplitQuick = {{65, D_EAGER}};
@@ -675,7 +627,7 @@ void body(V::Ctx &ctx)
     // ---- (c) every single edit of valid encodings (delete a byte, replace a byte by an edit token,
     //          insert an edit token), which reaches malformed framing deep inside a body
     if (!only || !strcmp(only, "c")) {
-        static const std::vector<std::string> edits = {"0", "1", "a", "g", ";", "=", "x", "\"", "\\", " ", "\r", "\n", "\r\n", "\x0b", std::string(1, '\0'), "0x", "8000000000000000"};
+        static const std::vector<std::string> edits = {"0", "1", "a", "g", ";", "=", "x", "\"", "\\", " ", "\r", "\n", "\r\n", "\x0b", std::string(1, '\0'), "0x", "0X", "8000000000000000"};
         const int exts[] = {0, 2, 3, 5};
         const int trailers[] = {0, 1};
         std::set<std::string> seen;
@@ -717,12 +669,61 @@ void body(V::Ctx &ctx)
             }
     }
 
-    // (b) runs last: it is the largest family, so a deadline cuts only its tail
     if (!only || !strcmp(only, "b")) {
         std::vector<int> idx;
         std::string s;
         tokenWalk(idx, s, quick ? 3 : 4, quick ? 4 : 5, tokWhole, tokSplit);
     }
+
+    // ---- (a2) sizes that need hex letters / several digits, one or two chunks
+    if (!only || !strcmp(only, "a2")) {
+        const size_t big[] = {10, 11, 15, 16, 17, 26, 31, 32, 171, 255, 256, 257};
+        const int exts[] = {0, 2};
+        for (size_t sz : big)
+            for (int two = 0; two < 2; ++two)
+                for (int si = 0; si < 5; ++si)
+                    for (int ei : exts) {
+                        if (quick && sz > 32 && (si == 1 || ei)) continue;
+                        std::vector<size_t> sizes = {sz};
+                        if (two) sizes.push_back(11);
+                        const std::string bodyBytes = fillerBody(two, sz + (two ? 11 : 0));
+                        const Encoded e = encode(bodyBytes, sizes, si, ei, -1, 0);
+                        char d[128];
+                        snprintf(d, sizeof d, "h:size=%zu,chunks=%d,spell=%d,ext=%d", sz, two + 1, si, ei);
+                        validCase(d, e, wholeAll, splitBig, false);
+                    }
+    }
+
+    // ---- (a) valid encodings of short bodies
+    for (int n = 0; n <= N && (!only || !strcmp(only, "a")); ++n)
+        for (int f = 0; f < (n ? 2 : 1); ++f) {
+            const std::string bodyBytes = fillerBody(f, n);
+            for (unsigned comp = 0; comp < (n ? 1u << (n - 1) : 1u); ++comp) {
+                std::vector<size_t> sizes;
+                if (n) {
+                    size_t run = 1;
+                    for (int i = 1; i < n; ++i) {
+                        if (comp & (1u << (i - 1))) { sizes.push_back(run); run = 1; }
+                        else ++run;
+                    }
+                    sizes.push_back(run);
+                }
+                const int positions = (int)sizes.size() + 1;
+                for (int si = 0; si < 3; ++si)
+                    for (int ei = 0; ei < NExts; ++ei)
+                        for (int where = -1; where < positions; ++where) {
+                            if (si == 0 && ei == 0 && where >= 0) continue; // undecorated: once
+                            if (positions == 1 && where >= 0) continue;     // same as "every position"
+                            // trailers vary with uniformly decorated chunks; single-position decorations use no trailer
+                            for (int ti = 0; ti < (where < 0 ? NTrailers : 1); ++ti) {
+                                const Encoded e = encode(bodyBytes, sizes, si, ei, where, ti);
+                                char d[128];
+                                snprintf(d, sizeof d, "v:n=%d,filler=%d,comp=%u,spell=%d,ext=%d,where=%d,trailer=%d", n, f, comp, si, ei, where, ti);
+                                validCase(d, e, wholeAll, splitValid, e.bytes.size() <= (quick ? 11u : 13u));
+                            }
+                        }
+            }
+        }
 
     V::count("parse_calls", nParse);
     V::count("parser_runs", nRuns);
